@@ -15,8 +15,10 @@ import (
 	"math/rand"
 	"os"
 	"runtime"
+	"strings"
 	"sync"
 	"sync/atomic"
+	"time"
 
 	"github.com/pingcap/log"
 	"github.com/tikv/pd/server/core"
@@ -141,13 +143,42 @@ func errText(err error) string {
 // object handed out by GetRule was changed and the update did not succeed, yet GetRule shows the change.
 func suffix(op opSpec, d *diff) string {
 	if op.Kind == kGetModifySet && d.Observable == "GetRule" {
+		if op.Mod.Via != "" {
+			return ":get-modify-set[" + op.Mod.Via + "]"
+		}
 		return ":get-modify-set"
+	}
+	if (op.Kind == kGetEditSetGroup || op.Kind == kGetEditSetBundle) && (d.Observable == "GetRule" || d.Observable == "GetRuleGroups" || d.Observable == "GetRuleGroup") {
+		return ":get-edit-set[" + op.Mod.Via + "]"
 	}
 	return ""
 }
 
 // step executes one update with all checks. faults: enumerate write failures for it.
-func (x *runner) step(op opSpec, faults bool) (fs []finding) {
+func (x *runner) step(op opSpec, faults bool) []finding {
+	fs := x.stepInner(op, faults)
+	if op.Mod != nil && op.Mod.Via != "" {
+		// No caller inside pd edits an object returned by these getters and sets it again (only
+		// GetRule has such a caller: server.SetReplicationConfig), so this is a history the program
+		// cannot have: every way in which the aliasing shows is counted, not judged.
+		var kept []finding
+		for _, f := range fs {
+			aliasing := false
+			for _, p := range []string{"unsuccessful-update-changed:", "reload-differs-from-served:", "reload-fails:", "retry-does-not-converge:", "served-differs-from-model:", "second-restart-"} {
+				aliasing = aliasing || strings.HasPrefix(f.Key, p)
+			}
+			if aliasing {
+				x.count("getter_returns_served_object:"+op.Mod.Via, 1)
+			} else {
+				kept = append(kept, f)
+			}
+		}
+		return kept
+	}
+	return fs
+}
+
+func (x *runner) stepInner(op opSpec, faults bool) (fs []finding) {
 	md2, wf, amb := x.md.apply(op)
 	if amb {
 		x.count("skipped_ambiguous_ops", 1)
@@ -199,7 +230,7 @@ func (x *runner) step(op opSpec, faults bool) (fs []finding) {
 			fs = append(fs, finding{Key: "unsuccessful-update-changed:" + d.Observable + suffix(op, d),
 				What:   fmt.Sprintf("%s was rejected (%v) but %s(%s) changed from %s to %s", op.Kind, err, d.Observable, d.Item, d.A, d.B),
 				Detail: map[string]interface{}{"outcome": "rejected", "error": err.Error(), "diff": d}})
-			if op.Kind == kGetModifySet {
+			if isGetEditSet(op) {
 				x.dead = true // the served objects were changed behind the index: no model for that
 			}
 		} else {
@@ -240,19 +271,29 @@ func (x *runner) step(op opSpec, faults bool) (fs []finding) {
 		return fs
 	}
 	// restarted PD
-	rm, rwrites, _, rerr := x.w.reload()
+	rm, rwrites, k2, rerr := x.w.reload()
 	x.count("reloads", 1)
 	if rwrites > 0 {
 		x.count("reload_wrote_to_storage", 1)
+		// the restart changed the storage: the restart after that one must still load what is served
+		if rerr == nil && !x.tainted {
+			m3 := placement.NewRuleManager(core.NewStorage(k2), nil)
+			if err3 := m3.Initialize(3, initLabels); err3 != nil {
+				fs = append(fs, finding{Key: "second-restart-fails:" + opName(op), What: fmt.Sprintf("after accepted %s the first restart wrote %d times to the storage and the second restart cannot initialise: %v", op.Kind, rwrites, err3)})
+			} else if d3 := diffSnaps(after, observe(m3)); d3 != nil {
+				fs = append(fs, finding{Key: "second-restart-differs-from-served:" + opName(op),
+					What: fmt.Sprintf("after accepted %s the first restart wrote %d times to the storage; after a second restart %s(%s) is %s, served is %s", op.Kind, rwrites, d3.Observable, d3.Item, d3.B, d3.A)})
+			}
+		}
 	}
 	if rerr != nil {
 		if !x.tainted {
-			fs = append(fs, finding{Key: "reload-fails:" + op.Kind, What: fmt.Sprintf("after accepted %s a fresh RuleManager cannot initialise from the storage: %v", op.Kind, rerr)})
+			fs = append(fs, finding{Key: "reload-fails:" + opName(op), What: fmt.Sprintf("after accepted %s a fresh RuleManager cannot initialise from the storage: %v", op.Kind, rerr)})
 		}
 		x.tainted = true
 	} else if dd := diffSnaps(after, observe(rm)); dd != nil {
 		if !x.tainted {
-			fs = append(fs, finding{Key: "reload-differs-from-served:" + op.Kind,
+			fs = append(fs, finding{Key: "reload-differs-from-served:" + opName(op),
 				What:   fmt.Sprintf("after accepted %s (%d storage writes): %s(%s) is served as %s but a fresh RuleManager on the same storage gives %s", op.Kind, writes, dd.Observable, dd.Item, dd.A, dd.B),
 				Detail: map[string]interface{}{"diff": dd, "storage": x.w.kv.Dump()}})
 		} else {
@@ -405,7 +446,7 @@ func (x *runner) otherUpdateProbe(op opSpec, k int64, mode kvx.FaultMode) {
 	ok := false
 	for try := 0; try < 20 && !ok; try++ {
 		other = x.g.op(x.md)
-		if other.Kind == kGetModifySet {
+		if isGetEditSet(other) {
 			continue
 		}
 		if oerr, _, pn := safeApply(c.m, other); oerr == nil && pn == "" {
@@ -477,6 +518,16 @@ func reproduce(cand []opSpec, key string, faults bool) *finding {
 // shrinkOp proposes smaller variants of a multi-part update.
 func shrinkOp(op opSpec) []opSpec {
 	var out []opSpec
+	big := len(op.Rules) + len(op.Batch)
+	for _, b := range op.Bundles {
+		big += len(b.Rules)
+	}
+	if op.Bundle != nil {
+		big += len(op.Bundle.Rules)
+	}
+	if big > 40 {
+		return nil // populated-world updates are not reduced element by element
+	}
 	switch op.Kind {
 	case kSetRules:
 		for i := range op.Rules {
@@ -522,8 +573,22 @@ func shrinkOp(op opSpec) []opSpec {
 	return out
 }
 
+// minimize reduces a witness history; the number of candidate re-executions is bounded (per
+// witness and per run) so that a tree on which everything fails does not spend the run here.
+var minimizeBudgetRun = 1500
+
 func minimize(h []opSpec, key string, faults bool) []opSpec {
 	cur := append([]opSpec(nil), h...)
+	budget := 200
+	inner := reproduces
+	reproduces := func(c []opSpec, key string, faults bool) bool {
+		if budget <= 0 || minimizeBudgetRun <= 0 {
+			return false
+		}
+		budget--
+		minimizeBudgetRun--
+		return inner(c, key, faults)
+	}
 	if !reproduces(cur, key, faults) {
 		return cur // not reproducible in isolation (kept as recorded)
 	}
@@ -599,6 +664,20 @@ func directedHistories() [][]opSpec {
 		{{Kind: kSetRule, Rule: whole("a", "l", "learner", 1)}, {Kind: kSetRuleGroup, Group: &groupSpec{ID: "a", Index: 2}}},
 		{{Kind: kGetModifySet, Mod: &modSpec{Group: "pd", ID: "default", Field: "count", Int: 5}}},
 		{{Kind: kGetModifySet, Mod: &modSpec{Group: "pd", ID: "default", Field: "role", Str: "learner"}}},
+		// server.SetReplicationConfig with a failing Persist: edit, SetRule, edit the same object back, SetRule
+		{{Kind: kGetModifySet, Mod: &modSpec{Group: "pd", ID: "default", Field: "count", Int: 5, Again: true, Int2: 3}}},
+		// get-edit-set through every other getter
+		{{Kind: kGetModifySet, Mod: &modSpec{Group: "pd", ID: "default", Field: "count", Int: 5, Via: "GetAllRules"}}},
+		{{Kind: kGetModifySet, Mod: &modSpec{Group: "pd", ID: "default", Field: "count", Int: 5, Via: "GetRulesByGroup"}}},
+		{{Kind: kGetModifySet, Mod: &modSpec{Group: "pd", ID: "default", Field: "count", Int: 5, Via: "GetRulesByKey"}}},
+		{{Kind: kGetModifySet, Mod: &modSpec{Group: "pd", ID: "default", Field: "count", Int: 5, Via: "GetRulesForApplyRegion"}}},
+		{{Kind: kGetModifySet, Mod: &modSpec{Group: "pd", ID: "default", Field: "count", Int: 5, Via: "GetGroupBundle"}}},
+		{{Kind: kGetModifySet, Mod: &modSpec{Group: "pd", ID: "default", Field: "count", Int: 5, Via: "GetAllGroupBundles"}}},
+		{{Kind: kGetEditSetGroup, Mod: &modSpec{Group: "pd", Field: "index", Int: 3, Via: "GetRuleGroup"}}},
+		{{Kind: kGetEditSetGroup, Mod: &modSpec{Group: "pd", Field: "index", Int: 3, Via: "GetRuleGroups"}}},
+		{{Kind: kGetEditSetBundle, Mod: &modSpec{Group: "pd", Field: "count", Int: 5, Via: "GetGroupBundle"}}},
+		{{Kind: kGetEditSetBundle, Mod: &modSpec{Group: "pd", Field: "count", Int: 5, Via: "GetAllGroupBundles"}}},
+		{{Kind: kGetEditSetBundle, Mod: &modSpec{Group: "pd", Field: "index", Int: 2, Via: "GetGroupBundle"}}},
 	}
 }
 
@@ -621,7 +700,7 @@ func runDirected(r *ev.Run, rp *reporter) {
 }
 
 func runRandom(r *ev.Run, rp *reporter, rng *rand.Rand) {
-	hists := r.Pick(150, 600)
+	hists := r.Pick(125, 600)
 	opsPer := 25
 	g := &gen{rng: rng}
 	for h := 0; h < hists; h++ {
@@ -638,16 +717,32 @@ func runRandom(r *ev.Run, rp *reporter, rng *rand.Rand) {
 			}
 			fs := x.step(op, true)
 			rp.report("random", h, x, fs)
-			if x.tainted && !x.dead && op.Kind == kGetModifySet {
-				// The storage is now behind what is served and stays so until that rule is really
-				// rewritten. So that the rest of the history is not blind on the reload clauses, the
-				// next update is an ordinary SetRule of the same rule with different location
-				// labels (a real change, never relevant for validity), judged like any other.
-				if cur, ok := x.md.rules[[2]string{op.Mod.Group, op.Mod.ID}]; ok {
+			if x.tainted && !x.dead && isGetEditSet(op) {
+				// The storage is now behind what is served and stays so until that rule / group is
+				// really rewritten. So that the rest of the history is not blind on the reload
+				// clauses, the next update is an ordinary SetRule of the same rule with different
+				// location labels (a real change, never relevant for validity) resp. a SetRuleGroup
+				// with the neighbouring index, judged like any other update.
+				key := [2]string{op.Mod.Group, op.Mod.ID}
+				if op.Kind == kGetEditSetBundle && op.Mod.Field == "count" {
+					if rs := x.md.rulesOfGroup(op.Mod.Group); len(rs) > 0 {
+						key[1] = rs[0].ID
+					}
+				}
+				if cur, ok := x.md.rules[key]; ok && (op.Kind == kGetModifySet || op.Mod.Field == "count") {
 					cur.Labels = [][]string{{"zone"}, {"zone", "host"}}[len(cur.Labels)%2]
 					cur.cs = ""
 					heal = &opSpec{Kind: kSetRule, Rule: &cur}
-					r.Count("resync_updates_after_get_modify_set", 1)
+					r.Count("resync_updates_after_get_edit_set", 1)
+				} else if op.Kind != kGetModifySet {
+					gs := x.md.group(op.Mod.Group)
+					if gs.Index > 0 {
+						gs.Index--
+					} else {
+						gs.Index++
+					}
+					heal = &opSpec{Kind: kSetRuleGroup, Group: &gs}
+					r.Count("resync_updates_after_get_edit_set", 1)
 				}
 			}
 		}
@@ -705,7 +800,7 @@ func runConcurrent(r *ev.Run, rp *reporter, rng *rand.Rand) {
 		}
 		for i := 0; i < 30; i++ {
 			op := g.op(x.md)
-			if op.Kind == kGetModifySet {
+			if isGetEditSet(op) {
 				continue // mutates a served object outside the lock by construction
 			}
 			md2, wf, amb := x.md.apply(op)
@@ -793,6 +888,7 @@ func main() {
 	r.Assume("reference model (model.go) written from the statement and the documented meaning of the fields/calls; override ties (equal index) and other undocumented corners are not judged (counted as skipped)")
 	r.Assume("a restarted PD = a fresh RuleManager.Initialize on a copy of the storage content; storage = core.Storage over an instrumented in-memory kv.Base; only writes (Save/Remove) are failed")
 	r.Assume("the order in which one update issues its storage writes is Go map order (savePatch), so which write is the k-th varies between runs; all k are enumerated")
+	r.Assume("get-edit-set is judged for GetRule (its in-tree caller server.SetReplicationConfig edits the returned rule and sets it, and on a failed Persist edits the same object again and sets it again); objects from the other getters are never edited by any caller inside pd, so aliasing seen through them is counted as getter_returns_served_object:<getter>, not judged")
 	r.Assume("one-directional clauses: model-valid updates that pd rejects, and accepted malformed rules, are counted, not judged; reload after 'failed update, then a different update' is evidence only")
 	rng := rand.New(rand.NewSource(r.ShardSeed()))
 	rp := &reporter{r: r, reported: map[string]bool{}}
@@ -800,12 +896,25 @@ func main() {
 		runReplay(r, rp)
 		r.Finish()
 	}
-	if r.Shard == 0 && os.Getenv("VERIF_C13_NO_DIRECTED") == "" {
-		runDirected(r, rp)
+	phaseSec := map[string]string{}
+	phase := func(name string, f func()) {
+		t0 := time.Now()
+		f()
+		phaseSec[name] = fmt.Sprintf("%.1f", time.Since(t0).Seconds()) // diagnostics only
 	}
-	runRandom(r, rp, rng)
-	runConcurrent(r, rp, rng)
-	runTwoWriters(r, rng)
+	if r.Shard == 0 && os.Getenv("VERIF_C13_NO_DIRECTED") == "" {
+		phase("directed", func() { runDirected(r, rp) })
+	}
+	phase("random", func() { runRandom(r, rp, rng) })
+	phase("readers-vs-writer", func() { runConcurrent(r, rp, rng) })
+	phase("two-writers", func() { runTwoWriters(r, rng) })
+	phase("writer-vs-reader", func() { runWriterVsReader(r, rng) })
+	phase("writer-vs-initialize", func() { runWriterVsInitialize(r, rng) })
+	phase("free-writers", func() { runFreeWriters(r, rng) })
+	if !r.Thorough() || r.Shard%4 == 0 {
+		phase("scale", func() { runScale(r, rp, rng) })
+	}
+	r.Set("phase_seconds", fmt.Sprint(phaseSec))
 	r.Set("probe_keys_per_observation", fmt.Sprint(len(probeKeys))) // strings: the driver sums numeric extras over shards
 	r.Set("probe_ranges_per_observation", fmt.Sprint(len(probeRanges)))
 	r.Floor(int64(r.Pick(3000, 12000)))
